@@ -66,7 +66,9 @@ def st_c13_pred(draw, depth):
         return ("and" if r < 78 else "or", tuple(draw(st_c13_pred(depth - 1)) for _ in range(n)))
     r = draw(st.integers(0, 99))
     if r < 50:
-        return draw(st_pred([A, B], 0, 1, literals=False))
+        from vf.checks.c12 import st_c12_range
+
+        return draw(st_pred([A, B], 0, 1, literals=False, ranges=st_c12_range()))
     if r < 65:
         return ("pref", C)
     return ("plit", draw(st.booleans()))
@@ -103,6 +105,44 @@ def has_literal_under_connective(p, under=False):
     if k == "not":
         return has_literal_under_connective(p[1], True)
     return False
+
+
+_FIXTURE = None
+
+
+def fixture():
+    """Two small iteration-engine relations used to put a predicate to work (join, selection, backtracking)."""
+    global _FIXTURE
+    if _FIXTURE is None:
+        from lsst.daf.relation import iteration
+
+        e1, e2 = iteration.Engine(name="E1"), iteration.Engine(name="E2")
+        D = VTag("d", True, 4)
+        left = e1.make_leaf({A, B, C}, iteration.RowSequence([{A: 1, B: 2, C: True}]), name="left")
+        right = e1.make_leaf({A, D}, iteration.RowSequence([{A: 1, D: 5}]), name="right")
+        _FIXTURE = (e1, e2, left, right)
+    return _FIXTURE
+
+
+def use_in_operations(lp, stats):
+    from lsst.daf.relation import Join, Selection
+
+    e1, e2, left, right = fixture()
+    try:
+        pj = Join(lp).partial(right)
+        pj.columns_required
+        pj2 = Join(lp).partial(left, is_lhs=True)
+        pj2.columns_required
+        sel = Selection(lp)
+        sel.columns_required
+        if lp.as_trivial() is not True:
+            left.transferred_to(e2).with_rows_satisfying(lp, preferred_engine=e1)
+            left.with_rows_satisfying(lp).with_only_columns({A})
+    except Exception as e:
+        from lsst.daf.relation import ColumnError, EngineError
+
+        if not isinstance(e, (ColumnError, EngineError)):
+            raise Violation("use-raised", f"{type(e).__name__}: {e}; predicate {lp}", exc=e)
 
 
 def check_pred(p, raw, rows, stats):
@@ -154,6 +194,8 @@ def check_pred(p, raw, rows, stats):
             raise Violation("selection-not-equivalent", f"Selection stores {fmt_p(stored)} which differs from {ctx} on row {_row(r)}")
     if set(sel.columns_required) != set(sel.predicate.columns_required):
         raise Violation("selection-columns", f"Selection.columns_required {set(sel.columns_required)} vs predicate {ctx}")
+    # (3b) using the predicate in operations must not change what it declares (objects are shared between relations)
+    use_in_operations(lp, stats)
     # (4) required columns
     req = set(lp.columns_required)
     if req != set(cols_p(p)):
